@@ -51,6 +51,18 @@ CHECKS = {
             "Generated expressions over the keys of the selected code's unicode tables (plus ASCII alphanumerics, typeface variants, capitals, Greek, chemistry, tables, text) x every braille code x highlight style x code preferences, brailled with no id / an id of the expression / a foreign id and through get_navigation_braille; cell codes must consist of U+2800-28FF only and carry no dots 7-8 unless a node of the expression is highlighted; text codes must be free of private-use characters, internal indicator letters and control characters; non-empty when the expression has letters or digits.",
             "U+28CD is accepted as the documented table row separator. Characters outside the code's tables are not generated (passed through by design); merror is excluded (no braille rule).",
             "DESIGN.md 3/C07"),
+    "C12": ("model-based property testing over histories of set_preference calls (reference model: map name -> normalised value) plus an exhaustive sweep of the preference table",
+            "Generated histories of set_preference calls with valid, wrong-kind, empty, mis-cased and hostile values on known, near-miss and unknown names, in fresh sessions; accepted values must read back normalised now and later; unknown names / wrong kinds must be rejected and leave every preference and every output unchanged; a coarse scope table is checked metamorphically; the name x value-kind sweep and the braille-code x code-preference scope sweep are enumerated exhaustively.",
+            "The preference table (names, kinds, sample values) is hard-coded in hist.rs from Rules/prefs.yaml and the API defaults. Global preferences (Language, separators, Chemistry, CheckRuleFiles) are exempt from the scope table.",
+            "DESIGN.md 3/C12"),
+    "C13": ("property-based testing with a hand-written tag scanner (validity predicate) and a differential oracle against TTS=None",
+            "Generated textbook expressions x engine {SSML, SAPI5} x language, style, verbosity and all prosody / capital-letter / bookmark preferences; the engine string must scan (attribute syntax), use only the engine's tag vocabulary, nest and close properly, carry only marks that name ids of the expression (none without Bookmark), and after removing tags spell the same words as the TTS=None speech.",
+            "Word boundaries around concatenated pieces are not asserted (comparison on characters with white space and pause punctuation removed).",
+            "DESIGN.md 3/C13"),
+    "C19": ("property-based testing with a grammar generator, single-edit mutation and arbitrary strings; reference recogniser + differential against the attribute-removed expression",
+            "Generated intent strings (grammatical, mutants, arbitrary Unicode, honoured form) on 9 kinds of host element x both recovery settings; never a panic; under IgnoreIntent speech succeeds and, for strings a reference recogniser proves illegal, equals the speech without the attribute; under Error illegal strings yield Err; name(args) with a made-up name mentions the name and every referenced literal; speech is repeatable and the intent attributes are still on the stored expression afterwards.",
+            "Intents naming concepts MathCAT knows (plus, power, ...) are only checked for panics when grammatical (wrong arity makes the concept's own rule fail, which the statement does not cover).",
+            "DESIGN.md 3/C19"),
 }
 
 NOT_YET = "check not built yet in this round (machinery in progress; see DESIGN.md section 7 build order)"
